@@ -23,6 +23,41 @@ static long double rd80 (const std::string& s)
 template<unsigned N> int vec_finite (const std::vector<std::string>& t, size_t at)
 { Vector<N,double> v; for (unsigned i=0;i<N;i++) v[i] = rd64 (t[at+i]); return true_math::finite (v) ? 1 : 0; }
 
+// the same predicates on values the optimiser can see at the call site (literals written in the call): a wrapper that lets the
+// caller's fast-math flags decide for compile-time constants would answer wrongly here and nowhere else
+#include <limits>
+#include <cfloat>
+template<typename T> static void konst (unsigned k, std::ostringstream& o)
+{
+#define KCASE(n, expr) case n: o << " " << (true_math::finite ((T)(expr)) ? 1 : 0) << " " << (true_math::signbit ((T)(expr)) ? 1 : 0); break;
+  switch (k) {
+    KCASE(0, std::numeric_limits<T>::quiet_NaN()) KCASE(1, std::numeric_limits<T>::infinity()) KCASE(2, -std::numeric_limits<T>::infinity())
+    KCASE(3, 0.0) KCASE(4, -0.0) KCASE(5, 1.0) KCASE(6, -1.0) KCASE(7, std::numeric_limits<T>::max()) KCASE(8, -std::numeric_limits<T>::max())
+    KCASE(9, std::numeric_limits<T>::denorm_min()) KCASE(10, -std::numeric_limits<T>::quiet_NaN())
+    default: throw std::runtime_error ("protocol:k"); }
+#undef KCASE
+}
+template<typename T> static void konst_est (unsigned k, std::ostringstream& o)
+{
+#define KCASE(n, expr) case n: o << " " << (finite (Estimate<T> ((T)(expr), (T) 1.0)) ? 1 : 0) << " " << (finite (Estimate<T> ((T) 1.0, (T)(expr))) ? 1 : 0); break;
+  switch (k) {
+    KCASE(0, std::numeric_limits<T>::quiet_NaN()) KCASE(1, std::numeric_limits<T>::infinity()) KCASE(2, -std::numeric_limits<T>::infinity())
+    KCASE(3, 0.0) KCASE(4, -0.0) KCASE(5, 1.0) KCASE(6, -1.0) KCASE(7, std::numeric_limits<T>::max()) KCASE(8, -std::numeric_limits<T>::max())
+    KCASE(9, std::numeric_limits<T>::denorm_min()) KCASE(10, -std::numeric_limits<T>::quiet_NaN())
+    default: throw std::runtime_error ("protocol:k"); }
+#undef KCASE
+}
+static void konst_cx (unsigned k, std::ostringstream& o)
+{
+#define KCASE(n, expr) case n: o << " " << (true_math::finite (std::complex<double> ((expr), 1.0)) ? 1 : 0) << " " << (true_math::finite (std::complex<double> (1.0, (expr))) ? 1 : 0); break;
+  switch (k) {
+    KCASE(0, std::numeric_limits<double>::quiet_NaN()) KCASE(1, std::numeric_limits<double>::infinity()) KCASE(2, -std::numeric_limits<double>::infinity())
+    KCASE(3, 0.0) KCASE(4, -0.0) KCASE(5, 1.0) KCASE(6, -1.0) KCASE(7, std::numeric_limits<double>::max()) KCASE(8, -std::numeric_limits<double>::max())
+    KCASE(9, std::numeric_limits<double>::denorm_min()) KCASE(10, -std::numeric_limits<double>::quiet_NaN())
+    default: throw std::runtime_error ("protocol:k"); }
+#undef KCASE
+}
+
 int main ()
 {
   std::string line;
@@ -45,6 +80,12 @@ int main ()
       else if (op == "tm.est") { Estimate<double> e (rd64 (t[1]), rd64 (t[2])); o << " " << (finite (e) ? 1 : 0); }
       else if (op == "tm.estf") { Estimate<float> e (rd32 (t[1]), rd32 (t[2])); o << " " << (finite (e) ? 1 : 0); }
       else if (op == "tm.estld") { Estimate<long double> e (rd80 (t[1]), rd80 (t[2])); o << " " << (finite (e) ? 1 : 0); }
+      else if (op == "tm.kd") konst<double> ((unsigned) std::stoul (t[1]), o);
+      else if (op == "tm.kf") konst<float> ((unsigned) std::stoul (t[1]), o);
+      else if (op == "tm.kld") konst<long double> ((unsigned) std::stoul (t[1]), o);
+      else if (op == "tm.kest") konst_est<double> ((unsigned) std::stoul (t[1]), o);
+      else if (op == "tm.kestf") konst_est<float> ((unsigned) std::stoul (t[1]), o);
+      else if (op == "tm.kcx") konst_cx ((unsigned) std::stoul (t[1]), o);
       else { std::cout << "err unknown-op\n"; continue; }
       std::cout << "ok" << o.str() << "\n";
     } catch (std::exception& e) { std::cout << "err throw:" << e.what() << "\n"; }
